@@ -31,7 +31,7 @@ TOK = re.compile(r'''
   | (?P<cstr>c"(?:[^"\\]|\\[0-9a-fA-F]{2}|\\\\)*")
   | (?P<qid>[%@!$]"(?:[^"\\]|\\.)*")
   | (?P<str>"(?:[^"\\]|\\.)*")
-  | (?P<id>[%@][-a-zA-Z$._0-9]+)
+  | (?P<id>[%@$][-a-zA-Z$._0-9]+)
   | (?P<meta>![-a-zA-Z$._0-9]*)
   | (?P<attr>\#[0-9]+)
   | (?P<hex>0x[KLMHR]?[0-9a-fA-F]+)
